@@ -164,7 +164,8 @@ function applyToInstance(comp, t) {
 function usable(cs) {
   // dynamic-slot content is decided on substrate B (see DESIGN 2.2); everything else runs here
   const s = JSON.stringify([cs.main, cs.files])
-  return !s.includes('"slotScopes"')
+  // (slot: references on content of a component WITHOUT dynamic slots - no element c in the template - stay here)
+  return !s.includes('"slotScopes"') || !s.includes('"tag":"c"')
 }
 
 /** names the model uses at positions the binding map cannot reach (C07, second half) */
